@@ -399,3 +399,49 @@ pub fn symbol_strategy(p_gap: u32, p_ambig: u32) -> BoxedStrategy<u8> {
     ]
     .boxed()
 }
+
+// ---------------------------------------------------------------------------------------
+/// A set of samples sharing content (derived from common ancestor records)
+#[derive(Clone, Debug, Serialize, Deserialize, PartialEq)]
+pub struct SetCase {
+    pub k: usize,
+    pub rc: bool,
+    pub anc: Vec<Rec>,
+    pub samples: Vec<SampleScript>,
+}
+
+pub fn set_strategy_k(k: usize, min_samples: usize, max_samples: usize) -> BoxedStrategy<SetCase> {
+    (
+        prop::bool::weighted(0.7),
+        ancestor_strategy(k),
+        vec(sample_strategy(k), min_samples..=max_samples),
+    )
+        .prop_map(move |(rc, anc, samples)| SetCase { k, rc, anc, samples })
+        .boxed()
+}
+
+pub fn set_strategy(min_samples: usize, max_samples: usize) -> BoxedStrategy<SetCase> {
+    k_strategy()
+        .prop_flat_map(move |k| set_strategy_k(k, min_samples, max_samples))
+        .boxed()
+}
+
+/// deterministic filler record that certainly contains windows
+pub fn filler(k: usize, salt: usize) -> Vec<u8> {
+    (0..k + 2 + salt % 3)
+        .map(|i| BASES[(i * i + i / 3 + salt * 7 + (i * salt) % 5) % 4])
+        .collect()
+}
+
+/// materialise; every sample is guaranteed >= 1 window (a filler record is appended if not)
+pub fn materialise_set(c: &SetCase) -> (Vec<Vec<u8>>, Vec<(String, Vec<Vec<u8>>)>) {
+    let (anc, samples) = materialise_samples(&c.anc, &c.samples, c.k);
+    let mut out = Vec::new();
+    for (i, mut recs) in samples.into_iter().enumerate() {
+        if recs.iter().all(|r| crate::model::windows(r, c.k).is_empty()) {
+            recs.push(filler(c.k, i));
+        }
+        out.push((format!("s{i}"), recs));
+    }
+    (anc, out)
+}
